@@ -190,6 +190,16 @@ class CondV:
         return f"Cond<{self.a!r}|{self.b!r}>"
 
 
+class RecV:
+    """Spec-side worklist record: record type + list of field strings (joined by ';' when printed)."""
+
+    __slots__ = ("kind", "fields")
+
+    def __init__(self, kind, fields):
+        self.kind = kind
+        self.fields = list(fields)
+
+
 class WellV:
     """Abstract well-id string: single-letter row with 0-based index r (0..25), column number c >= 1
     printed with at least two digits.  r, c are ints or z3 Int terms."""
